@@ -183,6 +183,10 @@ func (rhh *rawHttpHandlerV2) EventHandler(w http.ResponseWriter, req *http.Reque
 		event.AlertType = gostatsd.AlertInfo
 	}
 
+	if event.DateHappened == 0 {
+		event.DateHappened = time.Now().Unix() // no date given: the receipt time, as for an event line (DatagramParser)
+	}
+
 	rhh.handler.DispatchEvent(req.Context(), event)
 
 	atomic.AddUint64(&rhh.eventsProcessed, 1)
